@@ -178,7 +178,15 @@ func main() {
 			first := make([]string, len(j.Inputs))
 			var last []rt.Result
 			devAt, devIn := -1, ""
+			rounds := 0
+			started := time.Now()
 			for n := 0; n < j.Repeat && devAt < 0; n++ {
+				// thousands of rounds normally take a second or two; a parser that gets slower with every
+				// round (a stack that is never reset) is given a minute, the rounds done are reported
+				if time.Since(started) > time.Minute {
+					break
+				}
+				rounds = n + 1
 				last = last[:0]
 				for k, in := range j.Inputs {
 					run := rt.Begin(fuel)
@@ -203,7 +211,7 @@ func main() {
 					last = append(last, res)
 				}
 			}
-			enc.Encode(Out{Pkg: j.Pkg, Kind: "repeat", Results: last, Job: jobNo, Pos: devAt, Input: devIn})
+			enc.Encode(Out{Pkg: j.Pkg, Kind: "repeat", Results: last, Job: jobNo, Pos: devAt, Input: devIn, Trans: []int{rounds}})
 		}
 		for hi, h := range j.Histories {
 			var rs []rt.Result
